@@ -193,6 +193,14 @@ def run(ctx):
                 d = d.replace(year=rng.randint(1971, 2037)) if not (d.month == 2 and d.day == 29) else d.replace(year=2024)
             info["zone"] = name
             val = d.replace(tzinfo=tz)
+            if rng.random() < 0.3:
+                # the repeated hour at the end of DST, first and second occurrence (PEP 495 fold)
+                amb = {'America/New_York': (2021, 11, 7, 1), 'Europe/Berlin': (2021, 10, 31, 2), 'Australia/Lord_Howe': (2021, 4, 4, 1)}
+                key = name.split(':', 1)[-1]
+                if key in amb:
+                    y, mo, dd, hh = amb[key]
+                    val = val.replace(year=y, month=mo, day=dd, hour=hh, minute=rng.choice([30, 45, 59]), fold=rng.choice([0, 1]))
+                    info["zone"] = name + ":ambiguous-hour-fold%d" % val.fold
         elif pytz_zones:
             tz = rng.choice(pytz_zones)
             if not (1902 <= d.year <= 2037):
